@@ -479,6 +479,10 @@ class ClassRef(PE.Obj):
     def __hash__(self):
         return hash(self.key)
 
+    def same_object(self, other):
+        """`cls is other_cls` in interpreted code: one class, however many references the evaluator made"""
+        return isinstance(other, ClassRef) and other.key == self.key and other.world is self.world
+
     def __call__(self, text, *a, **k):
         hook = getattr(self.world, "construct_from", None)
         if hook is not None and not isinstance(text, str):
